@@ -21,6 +21,7 @@ type clients struct {
 	lconn, fconn *grpc.ClientConn
 	lkv, fkv     pb.KVClient
 	ltab, ftab   pb.TablesClient
+	onNudge      func()
 }
 
 func newClients(c *cluster) *clients {
@@ -54,8 +55,59 @@ func (c *clients) timeout(q *request) time.Duration {
 	return 20 * time.Second
 }
 
+// nudgeKey is never stored by anybody: deleting it is a write without effect.
+var nudgeKey = []byte("~c16-nudge-never-stored")
+
+// followerWriteTable returns the table of a write that the follower forwards to the leader
+// (nil for everything else).
+func followerWriteTable(q *request) []byte {
+	if !q.Follower || q.Msg == nil || !isWrite(q) {
+		return nil
+	}
+	switch m := q.Msg.(type) {
+	case *pb.PutRequest:
+		return m.Table
+	case *pb.DeleteRangeRequest:
+		return m.Table
+	case *pb.TxnRequest:
+		return m.Table
+	}
+	return nil
+}
+
 // send performs one request and reduces the answer to its status.
+//
+// A write sent to the follower is forwarded to the leader and then waits until the follower has
+// applied the leader's revision. When the follower applies it BEFORE the handler registers its
+// waiter, the waiter is only released by the next write to that table (read-your-writes is C11's
+// subject, not judged here). So while such a request is pending the client keeps sending, through
+// the leader, a write without effect to the same table (deletion of a key nobody stores).
 func (c *clients) send(q *request) outcome {
+	tbl := followerWriteTable(q)
+	if len(tbl) == 0 {
+		return c.sendOnce(q)
+	}
+	done := make(chan outcome, 1)
+	go func() { done <- c.sendOnce(q) }()
+	t := time.NewTimer(250 * time.Millisecond)
+	defer t.Stop()
+	for {
+		select {
+		case o := <-done:
+			return o
+		case <-t.C:
+			ctx, cancel := context.WithTimeout(context.Background(), 3*time.Second)
+			_, _ = c.lkv.DeleteRange(ctx, &pb.DeleteRangeRequest{Table: tbl, Key: nudgeKey})
+			cancel()
+			if c.onNudge != nil {
+				c.onNudge()
+			}
+			t.Reset(250 * time.Millisecond)
+		}
+	}
+}
+
+func (c *clients) sendOnce(q *request) outcome {
 	ctx, cancel := context.WithTimeout(context.Background(), c.timeout(q))
 	defer cancel()
 	conn, kv, tab := c.lconn, c.lkv, c.ltab
